@@ -22,6 +22,8 @@ ControlParams == {"metadata", "retry", "timeout", "request"}
 FieldPositions == {"top_field", "nested_field", "flattened_param", "http_path_top", "http_path_dotted", "http_body", "routing_field",
                    "flattened_dotted",     \* method_signature entry "inner.<word>": the parameter is <word>_, it sets request.inner.<word>_
                    "http_path_sibling",
+                   "http_path_head",       \* uri "{<word>.other=items/*}": the word is the LEADING segment of a dotted variable (request.<word>_.other)
+                   "http_body_additional", \* body: "<word>" on the primary AND on an additional binding; the request matches only the latter
                    "routing_template"}     \* explicit routing parameter with a path template naming the segment {<word>=items/*}: the header KEY stays <word>    \* uri ".../{<word>_id=*}/...{<word>=items/*}": only the variable NAMED <word> is rewritten
 Positions == FieldPositions \cup {"rpc_name", "proto_file"}
 
